@@ -495,6 +495,39 @@ def _elem_measures(et, co, con):
     return np.array(out)
 
 
+def ob_simu_center(case):
+    """centre of mass served by a simulation (the same quadrature as the mesh centroid, weighted by the density): no exception and the right point, also for a mesh centred at
+    the origin and for a beam structure whose members have different sections (mass-weighted centre, not the geometric one)."""
+    import contextlib, io
+    from EasyFEA import Models, Simulations, Mesher, ElemType
+    from EasyFEA.Geoms import Domain, Point, Line
+    with contextlib.redirect_stdout(io.StringIO()):
+        if case in ("TRI3", "QUAD4", "TETRA4", "HEXA8"):
+            dom = Domain(Point(-1, -1), Point(1, 1), 0.5)
+            mesh = dom.Mesh_2D([], ElemType[case]) if case in ("TRI3", "QUAD4") else Domain(Point(-1, -1, -1), Point(1, 1, -1), 1.0).Mesh_Extrude([], [0, 0, 2], [2], ElemType[case])
+            sm = Simulations.Elastic(mesh, Models.Elastic.Isotropic(mesh.dim))
+            sm.rho = 2.5
+            want = np.zeros(3)
+        else:
+            s1 = Mesher().Mesh_2D(Domain(Point(), Point(0.1, 0.1)))
+            s2 = Mesher().Mesh_2D(Domain(Point(), Point(0.2, 0.2)))
+            b1 = Models.Beam.Isotropic(2, Line(Point(0, 0), Point(1, 0)), s1, 210e3, v=0.3)
+            b2 = Models.Beam.Isotropic(2, Line(Point(1, 0), Point(2, 0)), s2 if case == "beam.sections" else s1, 210e3, v=0.3)
+            mesh = Mesher().Mesh_Beams([b1, b2], elemType=ElemType.SEG2)
+            sm = Simulations.Beam(mesh, Models.Beam.BeamStructure([b1, b2]))
+            sm.rho = 7.8
+            A1, A2 = 0.01, (0.04 if case == "beam.sections" else 0.01)
+            want = np.array([(A1 * 0.5 + A2 * 1.5) / (A1 + A2), 0.0, 0.0])
+    try:
+        got = np.asarray(sm.center, dtype=float)
+    except Exception as ex:
+        raise Refuted(f"centre of mass of the simulation ({case}) raises {type(ex).__name__}: {str(ex)[:100]}", cex=dict(case=case), signature=f"center:{case}:raises", replay=dict(confirmed=True))
+    e = float(np.abs(got - want).max())
+    if e > 1e-12:
+        raise Refuted(f"centre of mass of the simulation ({case}) is {got.tolist()}, expected {want.tolist()}", cex=dict(case=case), signature=f"center:{case}", replay=dict(confirmed=True, err=e))
+    return Verdict(DISCHARGED, backend="native run", detail=f"err {e:.1e}")
+
+
 def build(tier, seed):
     obs = []
     funcs = {}
@@ -518,6 +551,9 @@ def build(tier, seed):
         if mt in ("rigi", "mass"):
             obs.append(Ob(f"C07.sufficient.{et}.{mt}", ob_sufficient, (et, mt), "P", (f"{PATH}::Gauss.Gauss_factory",),
                           clause="necessary rank count on 2-element patches (no rank-deficient assembled matrix)"))
+    for case in ("TRI3", "QUAD4", "TETRA4", "HEXA8", "beam.uniform", "beam.sections"):
+        obs.append(Ob(f"C07.center.{case}", ob_simu_center, (case,), "X", ("EasyFEA/Simulations/_simu.py::_Simu.center", "EasyFEA/Simulations/_beam.py::Beam.center"), bound="one mesh",
+                      clause="centre of mass of a simulation: exact on a mesh centred at the origin; mass-weighted for beams with different sections", timeout=300))
     obs.append(Ob("canary.Triangle.3", ob_rule, ("Triangle", 3, 1, True), "P", expect=REFUTED))
     return dict(
         obs=obs, level="proof", min_obligations=60,
